@@ -19,16 +19,34 @@ def run(prog, rep):
     rule.check(term(scope) == ('e', 'H5F_SCOPE_GLOBAL') or scope.get('macro') == 'H5F_SCOPE_GLOBAL',
                'flush|scope', rep.where(c), fl.q, 'H5Fflush(hid, H5F_SCOPE_GLOBAL)', 'H5Fflush scope is %s, not H5F_SCOPE_GLOBAL' % scope.src())
     rule.check(term(c.c[0]) == ('f', 'hid'), 'flush|id', rep.where(c), fl.q, 'flushes the file id of this object')
-    # returns !err.isError(): abstractly, the return value is the negation of the isError oracle
-    it = HdrInterp(prog)
+    # every path on which flush() reports success contains the H5Fflush call and its error state answered 'no error'
+    from ..absint import GenericInterp
+    it = GenericInterp(prog, watch=lambda n: (n.callee or {}).get('name') in ('H5Fflush',))
     res = it.enumerate(fl, this='THIS', args=[])
-    good = len(res) == 2
+    probs = []
+    n_true = 0
     for assign, out, log, fields in res:
-        ie = [v for k, v in assign.items() if k[0] == 'isError']
-        if out[0] != 'ret' or len(ie) != 1 or out[1] is not (not ie[0]):
-            good = False
-    rule.check(good, 'flush|verdict', rep.where(fl), fl.q, 'flush() returns true iff H5Fflush did not fail',
-               'flush() does not return the negated error state of H5Fflush: %s' % [(r[0], r[1]) for r in res])
+        if out[0] != 'ret':
+            continue
+        if out[1] is False:
+            continue        # reporting failure promises nothing
+        if out[1] is not True:
+            probs.append('returns %r, not a verdict derived from the H5Fflush result' % (out[1],))
+            continue
+        n_true += 1
+        flushed = [l for l in log if l[0] == 'H5Fflush']
+        ie = [v for k, v in assign.items() if k[0] == 'bool' and k[1] == 'isError' and 'H5Fflush' in repr(k)]
+        ro = [v for k, v in assign.items() if k[0] == 'cmp' and k[1] == '==' and ('e', 'nix::FileMode::ReadOnly') in k and "'mode'" in repr(k)]
+        if not flushed and ro == [True]:
+            continue        # a file opened ReadOnly has nothing to write back
+        if not flushed:
+            probs.append('returns true on a path that never calls H5Fflush (taken when %s)' % ' && '.join(('' if v else '!') + repr(k)[:60] for k, v in sorted(assign.items(), key=repr)))
+        elif ie != [False]:
+            probs.append('returns true without having seen that H5Fflush did not fail')
+    if not n_true:
+        probs.append('no path reports success')
+    rule.check(not probs, 'flush|verdict', rep.where(fl), fl.q, 'flush() returns true only after H5Fflush ran and did not fail (%d abstract paths)' % len(res),
+               '; '.join(sorted(set(probs))))
     # ---- close
     cl = prog.fn(FH + '::close')
     it = HdrInterp(prog)
